@@ -49,7 +49,7 @@ def _loop_over_phases(fnode, phases_name):
     return out
 
 
-def check(run, P):
+def _check_main(run, P):
     run.rule("C10.scope", "the id universe tested against a statement's "
              "dependencies is assigned inside the loop over phases from that "
              "phase's statements only, never accumulated", minimum=3)
@@ -483,3 +483,9 @@ def _switch(run, P):
     run.ob("C10.switch", f, site, ok,
            construct="for every phase, every SwitchPhase: next_phase not in phases -> error",
            why="a switch to a missing phase raises KeyError at run time")
+
+
+def check(run, P):
+    _check_main(run, P)
+    from . import generic
+    generic.lints(run, P, "C10")
